@@ -429,7 +429,7 @@ theorem streamFill_safe (bs : UInt32) (s : StreamSt) (w : UInt32) (l : BlkLoad) 
           omega
         · simp [Access.inBounds]; omega
   · split
-    · simp; exact hw
+    · simp
     · rename_i fsz
       split
       · simp
